@@ -77,6 +77,9 @@ fn dispatch(session: &mut Session, cmd: &J) -> Result<J, String> {
 		"assemble" => crate::container::op_assemble(cmd),
 		"reader" => crate::container::op_reader(cmd),
 		"big_roundtrip" => crate::container::op_big_roundtrip(cmd),
+		"rabin" => op_rabin(cmd),
+		"schema_parse" => op_schema_parse(cmd),
+		"schema_build" => op_schema_build(cmd),
 		"so_ser" => op_so_ser(session, cmd),
 		"so_de" => op_so_de(session, cmd),
 		"schema_graph" => {
@@ -372,5 +375,186 @@ struct CapturedOwned(J);
 impl<'de> serde::Deserialize<'de> for CapturedOwned {
 	fn deserialize<D: serde::Deserializer<'de>>(d: D) -> Result<Self, D::Error> {
 		Captured::deserialize(d).map(|c| CapturedOwned(c.0))
+	}
+}
+
+// ---------------------------------------------------------------------------------------------
+// schemas: parsing, building, fingerprints, JSON regeneration
+// ---------------------------------------------------------------------------------------------
+fn pcf_of(g: &SchemaMut) -> J {
+	#[cfg(ten0_serde_avro_fast_verif)]
+	{
+		match g.verif_canonical_form() {
+			Ok(t) => json!({"has": true, "pcf": bytes_json(t.as_bytes())}),
+			Err(_) => json!({"has": false, "pcf": []}),
+		}
+	}
+	#[cfg(not(ten0_serde_avro_fast_verif))]
+	{
+		let _ = g;
+		json!({"has": false, "pcf": []})
+	}
+}
+
+fn op_schema_parse(cmd: &J) -> Result<J, String> {
+	let text = cmd["text"].as_str().ok_or("schema_parse needs text")?;
+	let graph: SchemaMut = match text.parse() {
+		Ok(g) => g,
+		Err(e) => return Ok(json!({"res": "err", "stage": "parse", "msg": e.to_string()})),
+	};
+	let fp_mut = graph.canonical_form_rabin_fingerprint().map_err(|e| format!("fingerprint of a parsed schema failed: {e}"));
+	let pcf = pcf_of(&graph);
+	let nodes = schema_mut_to_json(&graph);
+	let schema: Schema = match graph.freeze() {
+		Ok(s) => s,
+		Err(e) => return Ok(json!({"res": "err", "stage": "freeze", "msg": e.to_string()})),
+	};
+	let json_text = schema.json().to_owned();
+	let json_nodes = match json_text.parse::<SchemaMut>() {
+		Ok(g) => schema_mut_to_json(&g),
+		Err(e) => json!({"reparse_err": e.to_string()}),
+	};
+	// the same document through `Schema: FromStr`
+	let direct: Result<Schema, _> = text.parse::<Schema>();
+	Ok(json!({"res": "ok", "nodes": nodes, "fp": bytes_json(schema.rabin_fingerprint()),
+		"fp_mut": fp_mut.map(|f| bytes_json(&f)).unwrap_or(J::Null), "has_pcf": pcf["has"], "pcf": pcf["pcf"],
+		"json": json_text, "json_nodes": json_nodes,
+		"direct_fp": direct.map(|s| bytes_json(s.rabin_fingerprint())).unwrap_or(J::Null)}))
+}
+
+fn op_schema_build(cmd: &J) -> Result<J, String> {
+	let mut out = json!({"res": "ok"});
+	let graph = match cmd.get("text").and_then(|t| t.as_str()) {
+		None => schema_mut_from_json(&cmd["nodes"])?,
+		Some(text) => {
+			// a parsed schema, then edited through nodes_mut()
+			let mut g: SchemaMut = text.parse().map_err(|e| format!("edit scenario: the document does not parse: {e}"))?;
+			let edit = cmd.get("edit").and_then(|e| e.as_str()).unwrap_or("touch");
+			if cmd.get("fingerprint_first").and_then(|b| b.as_bool()).unwrap_or(false) {
+				let _ = g.canonical_form_rabin_fingerprint();
+			}
+			{
+				use serde_avro_fast::schema::RegularType;
+				let nodes = g.nodes_mut();
+				match edit {
+					"rename_field" => {
+						for n in nodes.iter_mut() {
+							if let RegularType::Record(r) = &mut n.type_ {
+								if let Some(f) = r.fields.first_mut() {
+									f.name.push_str("_renamed");
+									break;
+								}
+							}
+						}
+					}
+					"add_symbol" => {
+						for n in nodes.iter_mut() {
+							if let RegularType::Enum(e) = &mut n.type_ {
+								e.symbols.push("ADDED".to_owned());
+								break;
+							}
+						}
+					}
+					"swap_fields" => {
+						for n in nodes.iter_mut() {
+							if let RegularType::Record(r) = &mut n.type_ {
+								if r.fields.len() >= 2 {
+									r.fields.swap(0, 1);
+									break;
+								}
+							}
+						}
+					}
+					_ => {}
+				}
+			}
+			out["nodes_after"] = schema_mut_to_json(&g);
+			g
+		}
+	};
+	let what = cmd.get("what").and_then(|w| w.as_str()).unwrap_or("all");
+	if what == "all" || what == "fp" {
+		match graph.canonical_form_rabin_fingerprint() {
+			Ok(f) => {
+				out["fp_res"] = json!("ok");
+				out["fp"] = bytes_json(&f);
+			}
+			Err(_) => {
+				out["fp_res"] = json!("err");
+				out["fp"] = json!([]);
+			}
+		}
+	}
+	if what == "all" || what == "json" {
+		match serde_json::to_string(&graph) {
+			Ok(t) => {
+				out["json_res"] = json!("ok");
+				out["json"] = json!(t);
+			}
+			Err(_) => out["json_res"] = json!("err"),
+		}
+	}
+	if what == "all" || what == "freeze" {
+		match graph.clone().freeze() {
+			Err(_) => {
+				out["freeze"] = json!("err");
+			}
+			Ok(schema) => {
+				out["freeze"] = json!("ok");
+				out["frozen_fp"] = bytes_json(schema.rabin_fingerprint());
+				let text = schema.json().to_owned();
+				match text.parse::<SchemaMut>() {
+					Ok(g2) => {
+						out["reparse"] = json!("ok");
+						out["json_nodes"] = schema_mut_to_json(&g2);
+						out["json_fp"] = match g2.canonical_form_rabin_fingerprint() {
+							Ok(f) => bytes_json(&f),
+							Err(_) => json!([]),
+						};
+					}
+					Err(e) => {
+						out["reparse"] = json!("err");
+						out["reparse_msg"] = json!(e.to_string());
+					}
+				}
+				out["frozen_json"] = json!(text);
+				// the frozen schema must be usable: Debug, a serialization attempt, decoding attempts on short inputs
+				let _ = format!("{:?}", schema);
+				let mut cfg = SerializerConfig::new(&schema);
+				let _ = serde_avro_fast::to_datum(&P::Unit, Vec::new(), &mut cfg);
+				let _ = serde_avro_fast::to_datum(&P::I64(1), Vec::new(), &mut cfg);
+				let mut probes = 0;
+				for input in [&[][..], &[0][..], &[2, 2, 2, 2, 2, 2, 2, 2][..], &[1, 1, 1, 1][..], &[0, 0, 0, 0, 0, 0][..], &[4, 0, 2, 0, 2, 0, 0][..]] {
+					let mut dcfg = serde_avro_fast::de::DeserializerConfig::new(&schema);
+					dcfg.max_seq_size = 100;
+					let mut st = serde_avro_fast::de::DeserializerState::with_config(serde_avro_fast::de::read::SliceRead::new(input), dcfg);
+					let _: Result<serde::de::IgnoredAny, _> = serde::Deserialize::deserialize(st.deserializer());
+					let r: Result<serde_json::Value, _> = serde_avro_fast::from_datum_slice(input, &schema);
+					drop(r);
+					probes += 1;
+				}
+				out["probes"] = json!(probes);
+			}
+		}
+	}
+	Ok(out)
+}
+
+fn op_rabin(cmd: &J) -> Result<J, String> {
+	#[cfg(ten0_serde_avro_fast_verif)]
+	{
+		let limbs = cmd["state"].as_array().ok_or("rabin state")?;
+		let mut st: u64 = 0;
+		for (i, l) in limbs.iter().enumerate() {
+			st |= l.as_u64().ok_or("limb")? << (16 * i);
+		}
+		let bytes = bytes_of(&cmd["bytes"])?;
+		let r = serde_avro_fast::schema::verif_rabin_update(st, &bytes);
+		Ok(json!({"res": "ok", "state": [r & 0xffff, (r >> 16) & 0xffff, (r >> 32) & 0xffff, (r >> 48) & 0xffff]}))
+	}
+	#[cfg(not(ten0_serde_avro_fast_verif))]
+	{
+		let _ = cmd;
+		Ok(json!({"res": "unavailable"}))
 	}
 }
